@@ -173,7 +173,7 @@ def run(ctx, out, budget):
                 "extension; oracle = own + ancestors' declarations kept by the generator. Non-trivial = distinct histories "
                 "with >= 3 user types.")
     rng = ctx.rng(0)
-    n = 150 if budget == "quick" else 2500
+    n = 150 if budget == "quick" else 15000
     sess = [gen_session(rng, rng.randint(8, 40)) for _ in range(n)]
     evaluate(ctx, out, sess, "h")
 
